@@ -5,6 +5,10 @@ CONSTANTS
   MaxArgs = 2
   MaxKw = 2
   MaxSteps = 2
+  MaxRebind = 1
+  CtorModeSet = {"distinct"}
+  CallModeSet = {"distinct"}
+  FlagAtSet = {"init", "call"}
   AsCoded = TRUE
   SimK = 0
 VIEW view
